@@ -1,18 +1,21 @@
 #!/bin/bash
 # MANIFEST.setup_cmd: build the framework from files on disk only (offline).
-set -e
+# A failure in one property's files must not take the others down: every check re-makes its own
+# targets and reports a broken build as its own failure, so this script only warns.
 cd "$(dirname "$0")"
 export GOFLAGS=-mod=mod GOPROXY=off
 unset GOTOOLCHAIN GOSUMDB
 mkdir -p bin coq/Gen coq/cases evidence replay
 # 1. translator
-(cd genmodel && go build -o ../bin/genmodel .)
-./bin/genmodel -repo /repo -out coq/Gen -only all
-# 2. Coq development: full .vo build
-bash tools/forbidden.sh
+(cd genmodel && go build -o ../bin/genmodel .) || { echo "setup: genmodel build FAILED"; exit 1; }
+./bin/genmodel -repo /repo -out coq/Gen -only all || echo "setup: WARNING genmodel reported errors"
+# 2. Coq development: full .vo build (never -vos)
+python3 tools/forbidden.py || echo "setup: WARNING forbidden vernacular present"
 bash tools/mkcoqproject.sh
-(cd coq && timeout 3000 make -j16 2>&1 | tail -n 40)
+(cd coq && timeout 5400 make -k -j16 2>&1 | grep -v '^Closed under\|^COQC\|^COQDEP' | tail -n 60)
 # 3. harness: pre-build every command against /repo (-tags verif) to warm the build cache
 cp /repo/go.sum harness/go.sum
-(cd harness && for d in cmd/*/; do go build -tags verif -o ../bin/$(basename $d) ./$d; done)
+(cd harness && for d in cmd/*/; do go build -tags verif -o ../bin/$(basename $d) ./$d || echo "setup: WARNING harness $d did not build"; done)
+# 4. the repository's own commands used black-box by checks
+(cd /repo && go build -tags verif -o /verif/bin/staticcheck ./cmd/staticcheck) || echo "setup: WARNING staticcheck did not build"
 echo setup-ok
